@@ -22,7 +22,7 @@ with open(os.path.join(sd, "README.md"), "w") as fh:
              "Each directory holds `patch.diff` (the change to rust-lang/chalk; never committed to /repo), `demo.diff` (a test that fails with the\n"
              "change and passes without it), `confirm.log` (my own confirmation run in a scratch worktree: full suite green with the change,\n"
              "demonstration red with it and green without it) and `meta.json`.  Every change was written by a fresh sub-agent that saw only\n"
-             "the property text and its own worktree.  `checks.fired` in meta.json is rewritten by `tools/reeval_seeded.py`, which applies the\n"
+             "the property text and its own worktree.  `checks.fired` in meta.json is rewritten by `tools/reeval_seeded.py` / `tools/reeval_worker.py`, which apply the\n"
              "patch to /repo, runs every registered quick check, and restores /repo.\n\n"
              "%d changes; %d reported by the check of the property they break, %d only by another property's check, %d missed.\n\n"
              % (len(rows), sum(r[2] == "caught" for r in rows), sum(r[2].startswith("caught only") for r in rows),
